@@ -1157,7 +1157,11 @@ func runConc(r *rec, g *rng, tier, what, out string, extra map[string]interface{
 	c.report = func(prop, sig, what string, detail map[string]interface{}) {
 		if what0 := what; what0 != "" && attribute != "" && (prop == "C05" || prop == "C06" || prop == "C13") {
 			// the overflow scenarios run on behalf of C10 ("… keeps delivering and keeps accepting Add/Remove")
-			sig = attribute + ":after-overflow:" + strings.TrimPrefix(strings.TrimPrefix(strings.TrimPrefix(sig, "C05:"), "C06:"), "C13:")
+			mid := ":after-overflow:"
+			if attribute == "C07" {
+				mid = ":with-value-pending:"
+			}
+			sig = attribute + mid + strings.TrimPrefix(strings.TrimPrefix(strings.TrimPrefix(sig, "C05:"), "C06:"), "C13:")
 			prop = attribute
 		}
 		if seen[sig] {
@@ -1259,6 +1263,15 @@ func runConc(r *rec, g *rng, tier, what, out string, extra map[string]interface{
 		}
 		r.emit("scenario", fmt.Sprintf("scenario linearizable histories=%d", n), "ok")
 		c.raceClose(r, "C07", thorough)
+		// "no deadlock under any consumer pacing": control calls and Close with a value pending on either channel and
+		// a consumer that does not take it (the injected scenarios of C05, on behalf of C07)
+		attribute = "C07"
+		for _, cs := range []string{"neither", "onlyEvents", "onlyErrors"} {
+			for _, k := range []string{"overflow", "unmount", "move_self_mark_gone", "create_dir"} {
+				c.scenarioInjectedPending(cs, k)
+			}
+		}
+		attribute = ""
 	}
 	if want("C14") {
 		for _, nw := range []int{1, 2, 3, 5, 8} {
